@@ -32,6 +32,7 @@ pub const SITE_POLL_PENDING: u16 = 14;
 pub const SITE_POLL_EXISTS: u16 = 15;
 pub const SITE_NOW: u16 = 16;
 pub const SITE_BACKOFF: u16 = 17;
+pub const SITE_WAKE_ENTRY: u16 = 18;
 
 #[cfg(not(kani))]
 pub mod std {
